@@ -33,6 +33,12 @@ func main() {
 			fmt.Fprintln(os.Stderr, "no generator for", id)
 			os.Exit(2)
 		}
+		// the code under test prints progress lines with fmt.Println: keep them out of our output
+		realOut := os.Stdout
+		if devnull, err := os.OpenFile(os.DevNull, os.O_WRONLY, 0); err == nil {
+			os.Stdout = devnull
+		}
+		defer func() { os.Stdout = realOut }()
 		w, err := hx.NewWriter(*out)
 		if err != nil {
 			panic(err)
@@ -44,7 +50,7 @@ func main() {
 		if err := w.Close(); err != nil {
 			panic(err)
 		}
-		fmt.Printf("cases=%d\n", w.Count())
+		fmt.Fprintf(realOut, "cases=%d\n", w.Count())
 	case "enc":
 		sc := bufio.NewScanner(os.Stdin)
 		sc.Buffer(make([]byte, 1<<20), 1<<26)
